@@ -3,4 +3,186 @@ import IwModel.Lemmas.Vnum
 /-! Helper lemmas about the key comparators. -/
 namespace IwModel.Cmp
 
+/-! ### `tieBreak` = lexicographic byte order with the length as tie-break (`memcmp` + length) -/
+
+@[simp] theorem tieBreak_nil_nil : tieBreak [] [] = 0 := by simp [tieBreak, cmp2]
+@[simp] theorem tieBreak_nil_cons (b : Nat) (bs : Bytes) :
+    tieBreak [] (b :: bs) = -((bs.length : Int) + 1) := by simp [tieBreak, cmp2]
+@[simp] theorem tieBreak_cons_nil (a : Nat) (as : Bytes) :
+    tieBreak (a :: as) [] = (as.length : Int) + 1 := by simp [tieBreak, cmp2]
+theorem tieBreak_cons_cons (a b : Nat) (as bs : Bytes) :
+    tieBreak (a :: as) (b :: bs) = if a = b then tieBreak as bs else (a : Int) - (b : Int) := by
+  by_cases h : a = b
+  · simp only [tieBreak, cmp2, h, if_true, List.length_cons]
+    split <;> simp <;> omega
+  · have : (a : Int) - (b : Int) ≠ 0 := by omega
+    simp [tieBreak, cmp2, h, this]
+
+theorem tieBreak_self (a : Bytes) : tieBreak a a = 0 := by
+  induction a with
+  | nil => simp
+  | cons x xs ih => simp [tieBreak_cons_cons, ih]
+
+theorem tieBreak_eq_zero {a b : Bytes} (h : tieBreak a b = 0) : a = b := by
+  induction a generalizing b with
+  | nil => cases b with
+    | nil => rfl
+    | cons y ys => simp at h; omega
+  | cons x xs ih => cases b with
+    | nil => simp at h; omega
+    | cons y ys =>
+      rw [tieBreak_cons_cons] at h
+      split at h
+      · rename_i e; rw [e, ih h]
+      · omega
+
+theorem tieBreak_neg (a b : Bytes) :
+    (tieBreak a b < 0 ↔ tieBreak b a > 0) ∧ (tieBreak a b = 0 ↔ tieBreak b a = 0) := by
+  induction a generalizing b with
+  | nil => cases b with
+    | nil => simp
+    | cons y ys => simp <;> omega
+  | cons x xs ih => cases b with
+    | nil => simp <;> omega
+    | cons y ys =>
+      rw [tieBreak_cons_cons, tieBreak_cons_cons]
+      by_cases e : x = y
+      · subst e; simpa using ih ys
+      · have e' : ¬ y = x := fun h => e h.symm
+        simp only [e, e', if_false]; omega
+
+theorem tieBreak_antisymm (a b : Bytes) : sgn (tieBreak a b) = - sgn (tieBreak b a) := by
+  have := tieBreak_neg a b
+  unfold sgn
+  repeat' split
+  all_goals omega
+
+theorem tieBreak_trans {a b d : Bytes} (h1 : tieBreak a b > 0) (h2 : tieBreak b d > 0) :
+    tieBreak a d > 0 := by
+  induction a generalizing b d with
+  | nil => cases b with
+    | nil => simp at h1
+    | cons y ys => simp at h1; omega
+  | cons x xs ih => cases b with
+    | nil => cases d with
+      | nil => simp at h2
+      | cons z zs => simp at h2; omega
+    | cons y ys => cases d with
+      | nil => simp <;> omega
+      | cons z zs =>
+        rw [tieBreak_cons_cons] at h1 h2 ⊢
+        by_cases e1 : x = y
+        · by_cases e2 : y = z
+          · subst e1; subst e2
+            simp only [if_true] at h1 h2 ⊢
+            exact ih h1 h2
+          · have : ¬ x = z := by omega
+            simp only [e1, e2, if_false] at h1 h2 ⊢; omega
+        · by_cases e2 : y = z
+          · have : ¬ x = z := by omega
+            simp only [e2, this, if_false] at h1 h2 ⊢; omega
+          · simp only [e1, e2, if_false] at h1 h2
+            have : ¬ x = z := by omega
+            simp only [this, if_false]; omega
+
+/-! ### `cmp3`: reversed numeric order -/
+
+theorem cmp3_nat (a b : Nat) :
+    cmp3 (a : Int) (b : Int) = if b > a then 1 else if b < a then -1 else 0 := by
+  unfold cmp3; repeat' split
+  all_goals omega
+
+/-! ### plain mode as a lexicographic product -/
+
+theorem cmpKeys_plain_nc (v1 k : Bytes) (c2 : Nat) : cmpKeys .plain false v1 k c2 = tieBreak k v1 := by
+  simp [cmpKeys, cmpPrefix, tieBreak]
+
+theorem dec_stored (k : Bytes) (c : Nat) :
+    Vnum.dec (Vnum.enc c ++ k) = some (c, (Vnum.enc c).length) := by
+  simp [Vnum.dec, Vnum.decAux_enc]
+
+theorem cmpKeys_plain_c (k1 : Bytes) (c1 : Nat) (k : Bytes) (c2 : Nat) :
+    cmpKeys .plain true (stored true k1 c1) k c2
+      = if tieBreak k k1 = 0 then cmp3 (c1 : Int) (c2 : Int) else tieBreak k k1 := by
+  have hl : ((Vnum.enc c1 ++ k1).length : Int) - ((Vnum.enc c1).length : Int) = (k1.length : Int) := by
+    simp; omega
+  simp only [cmpKeys, cmpPrefix, stored, if_true, dec_stored, hl, List.drop_left, and_true]
+  unfold tieBreak
+  cases k1 with
+  | nil =>
+    have : cmp2 k [] = 0 := by cases k <;> simp [cmp2]
+    simp only [this, if_true]
+    cases k with
+    | nil => simp
+    | cons z zs => simp; omega
+  | cons y ys =>
+    have : ¬ (((y :: ys).length : Int) < 1) := by simp; omega
+    simp only [this, if_false]
+    by_cases hc : cmp2 k (y :: ys) = 0
+    · simp only [hc, if_true]
+      split <;> split <;> first | rfl | omega
+    · simp [hc]
+
+/-- comparison of two effective keys `(body, compound part)`: `a` as stored in a node, `b` as lookup
+    key, through `_cmp_keys` in plain (byte string) mode. `> 0` iff `b` sorts after `a`. -/
+def cmpK (compound : Bool) (a b : Bytes × Nat) : Int :=
+  cmpKeys .plain compound (stored compound a.1 a.2) b.1 b.2
+
+theorem cmpK_false (a b : Bytes × Nat) : cmpK false a b = tieBreak b.1 a.1 := by
+  simp [cmpK, stored, cmpKeys_plain_nc]
+
+theorem cmpK_true (a b : Bytes × Nat) :
+    cmpK true a b = if tieBreak b.1 a.1 = 0 then cmp3 (a.2 : Int) (b.2 : Int) else tieBreak b.1 a.1 := by
+  simp only [cmpK]; exact cmpKeys_plain_c a.1 a.2 b.1 b.2
+
+theorem cmpK_antisymm (c : Bool) (a b : Bytes × Nat) : sgn (cmpK c a b) = - sgn (cmpK c b a) := by
+  cases c with
+  | false => rw [cmpK_false, cmpK_false]; exact tieBreak_antisymm _ _
+  | true =>
+    rw [cmpK_true, cmpK_true, cmp3_nat, cmp3_nat]
+    have := tieBreak_neg b.1 a.1
+    have := tieBreak_neg a.1 b.1
+    unfold sgn
+    repeat' split
+    all_goals omega
+
+theorem cmpK_true_eq_zero (a b : Bytes × Nat) : cmpK true a b = 0 ↔ a = b := by
+  rw [cmpK_true, cmp3_nat]
+  constructor
+  · intro h
+    by_cases ht : tieBreak b.1 a.1 = 0
+    · simp only [ht, if_true] at h
+      have h1 := tieBreak_eq_zero ht
+      have h2 : a.2 = b.2 := by
+        repeat' split at h
+        all_goals omega
+      exact Prod.ext h1.symm h2
+    · simp only [ht, if_false] at h
+  · rintro rfl
+    simp [tieBreak_self]
+
+theorem cmpK_trans (c : Bool) (a b d : Bytes × Nat) (h1 : cmpK c a b > 0) (h2 : cmpK c b d > 0) :
+    cmpK c a d > 0 := by
+  cases c with
+  | false => rw [cmpK_false] at *; exact tieBreak_trans h2 h1
+  | true =>
+    rw [cmpK_true, cmp3_nat] at *
+    by_cases t1 : tieBreak b.1 a.1 = 0
+    · have e := tieBreak_eq_zero t1
+      rw [← e]
+      by_cases t2 : tieBreak d.1 b.1 = 0
+      · simp only [t1, t2, if_true] at h1 h2 ⊢
+        repeat' split at h1
+        all_goals repeat' split at h2
+        all_goals repeat' split
+        all_goals omega
+      · simp only [t2, if_false] at h2 ⊢; exact h2
+    · simp only [t1, if_false] at h1
+      by_cases t2 : tieBreak d.1 b.1 = 0
+      · have e := tieBreak_eq_zero t2
+        rw [e, if_neg t1]; exact h1
+      · simp only [t2, if_false] at h2
+        have := tieBreak_trans h2 h1
+        rw [if_neg (by omega)]; exact this
+
 end IwModel.Cmp
